@@ -216,6 +216,55 @@ def gen_spec(r, idx, transport=None, no_namespace=False):
     return spec
 
 
+# requests declared in ANOTHER proto package than the RPC (a dependency file: in proto_file, not in file_to_generate)
+SHARED_PACKAGES = ["acme.common", "sharedtypes.v1", "corp.policy.v2"]       # none is a prefix-extension of a target package
+WELL_KNOWN_REQUESTS = ["google.iam.v1.SetIamPolicyRequest", "google.iam.v1.GetIamPolicyRequest",
+                       "google.iam.v1.TestIamPermissionsRequest", "google.longrunning.WaitOperationRequest",
+                       "google.longrunning.ListOperationsRequest", "google.longrunning.GetOperationRequest"]
+
+
+def add_cross_package(spec, rx):
+    """post-pass over a generated spec (own PRNG: the spec stream itself is unchanged): some RPC names get a request
+    that lives in a dependency file of another package — a generated message of `spec["shared"]` with scalar, message-,
+    enum-typed, repeated and map fields (some REQUIRED, at least one message- and one enum-typed), or a request of
+    google.iam.v1 / google.longrunning. RPCs sharing a name keep sharing their request."""
+    groups = {}
+    for s in spec["services"]:
+        if s.get("builtin"):
+            continue
+        for m in s["methods"]:
+            if not m.get("ext"):
+                groups.setdefault(m["name"], []).append(m)
+    names = sorted(groups)
+    if not names:
+        return spec
+    chosen = [n for n in names if rx.maybe(0.4)] or [rx.pick(names)]
+    for n in chosen:
+        if rx.maybe(0.3):
+            inp = rx.pick(WELL_KNOWN_REQUESTS)
+        else:
+            sh = spec.setdefault("shared", {"package": rx.pick(SHARED_PACKAGES), "messages": []})
+            if sh["messages"] and rx.maybe(0.25):
+                inp = sh["package"] + "." + rx.pick(sh["messages"])["name"]
+            else:
+                msg = gen_message(rx, f"Shared{len(sh['messages']) + 1}{rx.pick(['Request', 'Args', 'Spec'])}")
+                top = max([f["number"] for f in msg["fields"]] + [0])
+                for fname, typ, p_req in (("spec", "message", 0.5), ("kind", "enum", 0.35), ("tags", "string", 0.2)):
+                    if typ != "string" and any(f["type"] == typ and not f["map"] for f in msg["fields"]) and rx.maybe(0.5):
+                        continue
+                    if any(f["name"] == fname for f in msg["fields"]):
+                        continue
+                    top += rx.randint(1, 3)
+                    msg["fields"].insert(rx.randint(0, len(msg["fields"])),
+                                         {"name": fname, "type": typ, "required": rx.maybe(p_req), "repeated": typ == "string" or rx.maybe(0.2),
+                                          "optional": False, "oneof": None, "map": False, "number": top})
+                sh["messages"].append(msg)
+                inp = sh["package"] + "." + msg["name"]
+        for m in groups[n]:
+            m["input"] = inp
+    return spec
+
+
 def corpus_specs():
     """minimal inputs behind the findings + excluded points of the theorems' hypotheses"""
     def base(transport="grpc"):
@@ -297,6 +346,23 @@ def corpus_specs():
     t = base("grpc+rest")
     t["services"] = [{"name": "Heartbeat", "methods": []}]
     out.append(("empty_service_alone", t))
+    # (4d) requests declared in ANOTHER package (dependency file `acme/common/shared.proto`, google.iam.v1,
+    #      google.longrunning) with message-, enum-typed, repeated, map and REQUIRED fields, next to a local control
+    six = lambda: [_fd("note", number=1), _fd("spec", True, "message", number=2), _fd("parent", True, number=3),
+                   _fd("filter_spec", False, "message", number=4), _fd("kind", False, "enum", number=5),
+                   dict(_fd("tags", number=6), repeated=True), dict(_fd("labels", number=7), map=True),
+                   _fd("class", True, "enum", number=8)]
+    for tr in ("grpc", "rest", "grpc+rest"):
+        t = base(tr)
+        t["messages"] = [{"name": "LocalRequest", "fields": six()}]
+        t["shared"] = {"package": "acme.common", "messages": [{"name": "SharedRequest", "fields": six()}]}
+        t["services"] = [
+            {"name": "Library", "methods": [mk("ApplyShared", "acme.common.SharedRequest"), mk("ApplyLocal", "LocalRequest"),
+                                            mk("SetIamPolicy", "google.iam.v1.SetIamPolicyRequest")]},
+            {"name": "Archive", "methods": [mk("WaitFor", "google.longrunning.WaitOperationRequest"),
+                                            mk("Import", "acme.common.SharedRequest", internal=True)]}]
+        t["n_files"] = 2
+        out.append(("cross_package_request_" + tr.replace("+", "_"), t))
     # (5) internal service + keyword RPC under every transport set, three proto files, Locations mixin, legacy IAM
     for tr in TRANSPORTS:
         s = base(tr)
@@ -366,17 +432,13 @@ def add_extop(f):
     m.options.Extensions[ex.operation_service] = "RegionOperations"
 
 
-def build_files(spec):
-    pkg, pdir = spec["package"], spec["dir"]
-    f = apigen.File(f"{pdir}/lib.proto", pkg)
-    files = [f]
-    if spec.get("extop"):
-        add_extop(f)
-    color = f.enum("Color", ["COLOR_UNSPECIFIED", "RED", "BLUE"])
-    book = f.msg("Book")
-    book.field("name"); book.field("class"); book.field("pages", "int32")
-    meta = f.msg("OpMeta"); meta.field("progress", "int32")
-    for m in spec["messages"]:
+def is_local(inp):
+    """the request is declared in the target package (spec["messages"]); otherwise `inp` is a full proto name"""
+    return "." not in inp
+
+
+def _add_messages(f, msgs, book, color):
+    for m in msgs:
         if m.get("builtin"):
             continue
         mm = f.msg(m["name"])
@@ -396,6 +458,32 @@ def build_files(spec):
                 tn = color
             mm.field(fd["name"], typ, fd.get("number"), type_name=tn, repeated=fd.get("repeated", False), oneof=fd.get("oneof"),
                      optional=fd.get("optional", False), **kw)
+
+
+def build_files(spec):
+    pkg, pdir = spec["package"], spec["dir"]
+    f = apigen.File(f"{pdir}/lib.proto", pkg)
+    files = [f]
+    if spec.get("extop"):
+        add_extop(f)
+    color = f.enum("Color", ["COLOR_UNSPECIFIED", "RED", "BLUE"])
+    book = f.msg("Book")
+    book.field("name"); book.field("class"); book.field("pages", "int32")
+    meta = f.msg("OpMeta"); meta.field("progress", "int32")
+    _add_messages(f, spec["messages"], book, color)
+    shared = None
+    if spec.get("shared"):
+        # a DEPENDENCY file of another proto package (in proto_file, not in file_to_generate): requests of the target
+        # package's RPCs may be declared there (`ApplyShared(acme.common.SharedRequest)`); not proto-plus
+        sh = spec["shared"]
+        shared = apigen.File(f"{sh['package'].replace('.', '/')}/shared.proto", sh["package"])
+        scolor = shared.enum("SharedColor", ["SHARED_COLOR_UNSPECIFIED", "GREEN", "AMBER"])
+        sbook = shared.msg("SharedBook")
+        sbook.field("name"); sbook.field("class"); sbook.field("pages", "int32")
+        _add_messages(shared, sh["messages"], sbook, scolor)
+        f.dep(shared.name)
+    if any(m["input"].startswith("google.iam.v1.") for s_ in spec["services"] for m in s_["methods"]):
+        f.dep("google/iam/v1/iam_policy.proto")
     extra_files = {}
     for k, s in enumerate(spec["services"]):
         if s.get("builtin"):
@@ -405,17 +493,43 @@ def build_files(spec):
         if nf > 1 and k % nf != 0:
             slot = k % nf
             if slot not in extra_files:
-                extra_files[slot] = apigen.File(f"{pdir}/extra{slot}.proto", pkg).dep(f"{pdir}/lib.proto")
+                extra_files[slot] = apigen.File(f"{pdir}/extra{slot}.proto", pkg).dep(f"{pdir}/lib.proto", *f.pb.dependency)
                 files.append(extra_files[slot])
             target = extra_files[slot]
         svc = target.service(s["name"])
         for m in s["methods"]:
-            inp = "." + m["input"] if m["input"].startswith("google.") else f".{pkg}.{m['input']}"
+            inp = f".{pkg}.{m['input']}" if is_local(m["input"]) else "." + m["input"]
             out = ".google.longrunning.Operation" if m.get("lro") else f".{pkg}.Book"
             svc.method(m["name"], inp, out, http=("post", f"/v1/{s['name'].lower()}/{nocase(m['name'])}x"), body="*",
                        ss=m.get("ss", False), cs=m.get("cs", False),
                        lro=(f"{pkg}.Book", f"{pkg}.OpMeta") if m.get("lro") else None)
-    return files
+    return files, shared
+
+
+def descriptor_fields(full_name):
+    """[(name, REQUIRED?, number)] of a message of the standard dependency files, from its descriptor"""
+    pkg, _, name = full_name.rpartition(".")
+    for fdp in apigen.dep_files():
+        if fdp.package == pkg:
+            for mt in fdp.message_type:
+                if mt.name == name:
+                    return [(fd.name, apigen.field_behavior_pb2.REQUIRED in fd.options.Extensions[apigen.field_behavior_pb2.field_behavior], fd.number)
+                            for fd in mt.field]
+    raise KeyError(full_name)
+
+
+def request_fields(spec, m):
+    """[(descriptor field name, REQUIRED?, number)] of the RPC's request, declaration order — from the INPUT: the
+    spec's message (target package or dependency file) or the descriptor of a standard dependency file"""
+    inp = m["input"]
+    if is_local(inp):
+        msg = next(x for x in spec["messages"] if x["name"] == inp)
+    else:
+        sh = spec.get("shared")
+        msg = next((x for x in sh["messages"] if sh["package"] + "." + x["name"] == inp), None) if sh else None
+        if msg is None:
+            return descriptor_fields(inp)
+    return [(f["name"], bool(f["required"]), int(f.get("number") or (i + 1))) for i, f in enumerate(msg["fields"])]
 
 
 def service_yaml(spec):
@@ -439,7 +553,7 @@ class Built:
 
     def __init__(self, spec):
         self.spec = spec
-        self.files = build_files(spec)
+        self.files, self.shared = build_files(spec)
         self.yaml_path = None
         params = [f"transport={spec['transport']}", "metadata", "autogen-snippets=false"]
         y = service_yaml(spec)
@@ -455,7 +569,8 @@ class Built:
             params.append(f"python-gapic-name={spec['name_opt']}")
         if spec.get("add_iam"):
             params.append("add-iam-methods")
-        self.req = apigen.request(self.files, ",".join(params))
+        # the dependency file of the other package goes into proto_file only (not file_to_generate)
+        self.req = apigen.request(([self.shared] if self.shared else []) + self.files, ",".join(params), targets=self.files)
 
     def close(self):
         if self.yaml_path:
@@ -466,18 +581,12 @@ class Built:
 
 
 def input_fields(spec, m):
-    """(descriptor field name, required) of the request, declaration order — from the INPUT spec"""
-    if m["input"].startswith("google."):
-        return []
-    msg = next(x for x in spec["messages"] if x["name"] == m["input"])
-    return [(f["name"], bool(f["required"])) for f in msg["fields"]]
+    """(descriptor field name, required) of the request, declaration order — from the INPUT"""
+    return [(n, rq) for n, rq, _ in request_fields(spec, m)]
 
 
 def input_numbers(spec, m):
-    if m["input"].startswith("google."):
-        return []
-    msg = next(x for x in spec["messages"] if x["name"] == m["input"])
-    return [int(f.get("number") or (i + 1)) for i, f in enumerate(msg["fields"])]
+    return [k for _, _, k in request_fields(spec, m)]
 
 
 def model_input(spec, naming, service_order):
@@ -489,7 +598,7 @@ def model_input(spec, naming, service_order):
             "api": {"proto_package": spec["package"], "namespace": list(naming.module_namespace),
                     "versioned_module": naming.versioned_module_name,
                     "services": [{"name": s["name"], "methods": [
-                        {"name": m["name"], "internal": bool(m["internal"]), "proto_plus": not m["input"].startswith("google."),
+                        {"name": m["name"], "internal": bool(m["internal"]), "proto_plus": is_local(m["input"]),
                          "ext_op": m.get("ext") == "op", "fields": [[n, rq, num] for (n, rq), num in zip(input_fields(spec, m), input_numbers(spec, m))]}
                         for m in s["methods"]]} for s in services]}}
 
@@ -641,7 +750,8 @@ def gen_calls(r, tdict, foreign, n):
         for _ in range(npos):
             args.append([None, val()])
         if style in ("pos+kw", "pos+kw-skip"):
-            rest = [q for q in params[npos:] if q.isidentifier()]
+            # (a request of another package keeps its descriptor names: `class=` is not a Python keyword argument)
+            rest = [q for q in params[npos:] if q.isidentifier() and not keyword.iskeyword(q)]
             if style == "pos+kw-skip":
                 rest = [q for q in rest if r.maybe(0.6)]
                 r.shuffle(rest)
@@ -736,6 +846,8 @@ def run_spec(ctx, spec, label, probe=None):
                 ctx.count("rpc_streaming", {(False, False): "unary", (False, True): "server", (True, False): "client", (True, True): "bidi"}[
                     (bool(m.get("cs")), bool(m.get("ss")))] + "/" + spec["transport"])
                 ctx.count("request_fields", len(input_fields(spec, m)))
+                ctx.count("request_declared_in", "target package" if is_local(m["input"]) else "google.protobuf.Empty" if m["input"] == "google.protobuf.Empty"
+                          else "dependency file of another package" if not m["input"].startswith("google.") else m["input"].rsplit(".", 1)[0])
                 ctx.count("required_fields", sum(1 for _, q in input_fields(spec, m) if q))
                 nums = input_numbers(spec, m)
                 fl_ = input_fields(spec, m)
@@ -786,6 +898,8 @@ def run_spec(ctx, spec, label, probe=None):
             ctx.fail("fixup-table-missing", "no METHOD_TO_PARAMS dict literal in the fix-up script", payload)
             return
         root = genrun.materialise(res)
+        if b.shared is not None:
+            genrun.materialise_pb2(root, b.shared.pb)      # the dependency's own `shared_pb2` module (protoc's job)
         libpkg = md.get("libraryPackage", "")
         ops = [{"op": "import_all", "package": libpkg},
                {"op": "call", "module": ffiles[0][:-3].replace("/", "."), "attr": f"{cls_name}.METHOD_TO_PARAMS.copy"}]
@@ -799,7 +913,7 @@ def run_spec(ctx, spec, label, probe=None):
                     for meth in rdesc.get("methods", []):
                         ops.append({"op": "signature", "module": libpkg, "attr": f"{client}.{meth}"})
                         plan.append(("signature", sname, kind, client, rpc_name, meth))
-        req_msgs = sorted({m["input"] for s in spec["services"] for m in s["methods"] if not m["input"].startswith("google.")})
+        req_msgs = sorted({m["input"] for s in spec["services"] for m in s["methods"] if is_local(m["input"])})
         for mname in req_msgs:
             ops.append({"op": "call", "module": libpkg, "attr": f"{mname}.meta.fields.copy"}); plan.append(("fields", mname, None, None, None, None))
         # the model's emitted classes (for the model-vs-emitted tie)
@@ -962,7 +1076,8 @@ def run_spec(ctx, spec, label, probe=None):
             expected = []
             for m in ms:
                 fl = input_fields(spec, m)
-                emitted = fields_of.get(m["input"]) if not m["input"].startswith("google.") else []
+                # a request declared in another package is not a class of the library: its fields keep their descriptor names
+                emitted = fields_of.get(m["input"]) if is_local(m["input"]) else []
                 if emitted is None:
                     fails.append(("request-class-missing", f"request class {m['input']} not found in {libpkg}"))
                     continue
@@ -985,7 +1100,7 @@ def run_spec(ctx, spec, label, probe=None):
                 for n in group:
                     for m in by_rpc_name[n][:1]:
                         fl = input_fields(spec, m)
-                        emitted = (fields_of.get(m["input"]) or []) if not m["input"].startswith("google.") else []
+                        emitted = (fields_of.get(m["input"]) or []) if is_local(m["input"]) else []
                         py = [([e for e in emitted if e in (fn, fn + "_")] or [fn])[0] for fn, _ in fl]
                         want.append([q for q, (_, rq) in zip(py, fl) if rq] + [q for q, (_, rq) in zip(py, fl) if not rq])
                 if all(len(by_rpc_name[n]) == 1 for n in group) and \
@@ -1174,11 +1289,15 @@ def _run(ctx):
     snake_t2(ctx, ctx.rng("snake"), ctx.n(200, 3000))
     for i in range(ctx.n(18, 360)):
         spec = gen_spec(r, i)
+        if i % 3 == 1:
+            add_cross_package(spec, ctx.rng("cross-package", i))
         run_spec(ctx, spec, f"api{i}")
     # libraries without a namespace part (proto package `<name>.<version>`, no namespace option): own stream
     r2 = ctx.rng("apis-no-namespace")
     for i in range(ctx.n(4, 60)):
         spec = gen_spec(r2, i, transport=TRANSPORTS[(i + i // 4) % len(TRANSPORTS)], no_namespace=True)
+        if i % 2 == 1:
+            add_cross_package(spec, ctx.rng("cross-package-no-namespace", i))
         run_spec(ctx, spec, f"nons{i}")
 
 
@@ -1187,7 +1306,10 @@ def search(ctx):
     try:
         r = ctx.rng("search")
         for i in range(24):
-            run_spec(ctx, gen_spec(r, i, no_namespace=(i % 3 == 2)), f"search{i}")
+            spec = gen_spec(r, i, no_namespace=(i % 3 == 2))
+            if i % 2 == 1:
+                add_cross_package(spec, ctx.rng("search-cross-package", i))
+            run_spec(ctx, spec, f"search{i}")
     finally:
         if path:
             try:
